@@ -34,7 +34,7 @@ func init() {
 		ID:    "C14",
 		Level: "model_checking",
 		Rule: "explicit-state: all 65536 register states (each reached on the implementation through New().Write of its unique 2-byte prefix) x all 256 next bytes, compared with a bitwise CRC-16/ARC; " +
-			"Reset and residue from every state; all byte strings of length<=3 (quick: <=2 plus stride on 3) under every write partition; long strings under every 1- and 2-cut partition; single Write / Checksum calls of sizes 2^k-1, 2^k, 2^k+1 for k=5..20; alignment: every start offset 0..16 inside a larger buffer x 30 lengths up to 8192 through Checksum, one Write and a two-part Write; first use: Checksum / Write / byte-wise Write / Sum on 10 lengths as the first call a fresh process makes into the package, and ordered pairs of such calls (quick: lengths 255..4096; thorough: all), one process per history; histories that first go through package fit (Header.CheckIntegrity with a wrong / right CRC, CheckIntegrity and Decode of corrupt and valid files, Encode) and then use the checksum package. " +
+			"Reset and residue from every state; all byte strings of length<=3 (quick: <=2 plus stride on 3) under every write partition; long strings under every 1- and 2-cut partition; single Write / Checksum calls of sizes 2^k-1, 2^k, 2^k+1 for k=5..20; self-referential inputs: data of 0..72 (and larger) bytes followed by its own checksum in either byte order and 0..10 zero bytes, at 8 start offsets, as one piece and as two writes; alignment: every start offset 0..16 inside a larger buffer x 30 lengths up to 8192 through Checksum, one Write and a two-part Write; first use: Checksum / Write / byte-wise Write / Sum on 10 lengths as the first call a fresh process makes into the package, and ordered pairs of such calls (quick: lengths 255..4096; thorough: all), one process per history; histories that first go through package fit (Header.CheckIntegrity with a wrong / right CRC, CheckIntegrity and Decode of corrupt and valid files, Encode) and then use the checksum package. " +
 			"distinct = distinct (state,byte)->state' transitions observed on the implementation",
 		Assumptions: []string{"reference is the textbook bitwise reflected CRC-16 (poly 0xA001, init 0, no final xor)"},
 		Run:         runC14,
@@ -96,6 +96,7 @@ func init() {
 func runC14(w *vx.W) {
 	c14FirstUse(w)
 	c14Alignment(w)
+	c14SelfReferential(w)
 	// inverse table: state -> 2-byte prefix, from the reference model
 	var prefix [65536][2]byte
 	var seen [65536]bool
@@ -485,6 +486,57 @@ func c14FitCall(name string) {
 			_ = fit.Encode(&buf, apiFile(0), binary.LittleEndian)
 		}
 	})
+}
+
+// c14SelfReferential: data followed by its own checksum (either byte order) and then by 0..10 zero bytes, fed as one
+// piece and byte-wise, for data lengths 0..72 and some larger ones, at start offsets 0..7 inside a larger buffer:
+// the inputs in which a word of the data equals the current register (shortcuts for "nothing changes" live there).
+func c14SelfReferential(w *vx.W) {
+	var idx int64
+	for _, n := range append(seqInts(0, 72), 128, 256, 1000, 1024, 4096) {
+		for pat := 0; pat < 3; pat++ {
+			idx++
+			if !w.Mine(idx) {
+				continue
+			}
+			data := c14Pattern(n + pat)[pat:]
+			sum := fitmodel.CRC(data)
+			for order := 0; order < 2; order++ {
+				for zeros := 0; zeros <= 10; zeros++ {
+					for off := 0; off < 8; off++ {
+						buf := make([]byte, off+n+2+zeros)
+						x := buf[off:]
+						copy(x, data)
+						if order == 0 {
+							x[n], x[n+1] = byte(sum), byte(sum>>8)
+						} else {
+							x[n], x[n+1] = byte(sum>>8), byte(sum)
+						}
+						want := fitmodel.CRC(x)
+						w.Eval(2)
+						w.Fam("data-then-own-checksum-then-zeros", 1)
+						if got := dyncrc16.Checksum(x); got != want {
+							w.Violation("crc/self-referential", fmt.Sprintf("Checksum of %d data bytes + their sum (order %d) + %d zero bytes at buffer offset %d: %#04x, reference %#04x", n, order, zeros, off, got, want), c14Replay{"self-referential", vx.Hex(x), nil, want, got, off})
+						}
+						h := dyncrc16.New()
+						h.Write(x[:n])
+						h.Write(x[n:])
+						if got := h.Sum16(); got != want {
+							w.Violation("crc/self-referential", fmt.Sprintf("Write(data) then Write(sum + %d zeros): %#04x, reference %#04x", zeros, got, want), c14Replay{"self-referential", vx.Hex(x), []int{n}, want, got, 0})
+						}
+					}
+				}
+			}
+		}
+	}
+}
+
+func seqInts(lo, hi int) []int {
+	var out []int
+	for i := lo; i <= hi; i++ {
+		out = append(out, i)
+	}
+	return out
 }
 
 func c14FirstUse(w *vx.W) {
